@@ -190,24 +190,24 @@ theorem if_match_mismatch_changes_nothing {env : Env} {m : Method} {path : Bytes
     acknowledged writes form a chain: each was computed from exactly the value the previous
     acknowledged write left behind, and the value at `p` is the end of that chain. -/
 theorem cas_no_lost_update {env : Env} {p : Bytes} {f : Nat → Option Json → Json} {V : Option Json → Prop}
-    (hyp : CasHyp env p f V) {s0 : State} (hs0 : Reachable env s0) (hkey : hasCfgKey s0.rawCfg = true)
+    (hyp : CasHyp env p f V) {s0 : State} (hs0 : Reachable env s0)
     {v0 : Json} (hv0 : (access .get p .empty s0.rawCfg).2 = .ok (some v0)) (hV0 : V (some v0)) (sched : List Nat) :
     ∃ v, (access .get p .empty (runSched env p f sched ⟨s0, fun _ => none, []⟩).s.rawCfg).2 = .ok (some v) ∧
       chain f v0 (runSched env p f sched ⟨s0, fun _ => none, []⟩).log = some v := by
   have h0 : CasInv p f V v0 ⟨s0, fun _ => none, []⟩ :=
-    ⟨reachable_inv hs0, hkey, ⟨v0, hv0, rfl, hV0⟩, by intro c ep out h; cases h⟩
+    ⟨reachable_inv hs0, ⟨v0, hv0, rfl, hV0⟩, by intro c ep out h; cases h⟩
   obtain ⟨v, h1, h2, _⟩ := (cas_run hyp sched _ h0).cur
   exact ⟨v, h1, h2⟩
 
 /-- the counter reading: if every write adds one, the final count is the initial count plus
     the number of acknowledged writes — none is lost, none is applied twice -/
 theorem cas_counter {env : Env} {p : Bytes} {f : Nat → Option Json → Json} {V : Option Json → Prop}
-    (hyp : CasHyp env p f V) {s0 : State} (hs0 : Reachable env s0) (hkey : hasCfgKey s0.rawCfg = true)
+    (hyp : CasHyp env p f V) {s0 : State} (hs0 : Reachable env s0)
     {v0 : Json} (hv0 : (access .get p .empty s0.rawCfg).2 = .ok (some v0)) (hV0 : V (some v0))
     (size : Json → Nat) (hsz : ∀ c v, size (f c (some v)) = size v + 1) (sched : List Nat) :
     ∃ v, (access .get p .empty (runSched env p f sched ⟨s0, fun _ => none, []⟩).s.rawCfg).2 = .ok (some v) ∧
       size v = size v0 + (runSched env p f sched ⟨s0, fun _ => none, []⟩).log.length := by
-  obtain ⟨v, h1, h2⟩ := cas_no_lost_update hyp hs0 hkey hv0 hV0 sched
+  obtain ⟨v, h1, h2⟩ := cas_no_lost_update hyp hs0 hv0 hV0 sched
   exact ⟨v, h1, chain_size f size hsz _ _ _ h2⟩
 
 /-! ### atomicity: the document, the index and the running apps always agree -/
@@ -528,11 +528,24 @@ def idPath (segs : List Bytes) : Bytes := if segs = [] then cfgPrefix else rende
     configuration — the top-level object included: `GET /id/<id>` is answered 200 with exactly
     that object — the value at its position in the document, carrying that `@id` — and the
     ETag names its expanded path. -/
-theorem id_resolves_partial {env : Env} {s : State} (h : Reachable env s) (hkey : hasCfgKey s.rawCfg = true)
+theorem id_resolves_partial {env : Env} {s : State} (h : Reachable env s)
     {j : Json} (hj : s.rawCfgJSON = some j) {segs : List Bytes} {t : Bytes} (ha : Addressable j segs t) :
     ∃ kvs v, serve env (readReq (idPrefix ++ t)) s = (s, .okGet (some (.obj kvs)) (idPath segs)) ∧
       sget segs j = some (.obj kvs) ∧ lookup idKey kvs = some v ∧ idText v = some t := by
   have hi := reachable_inv h
+  -- the "config" key is there: without it the document is null and nothing is tagged
+  have hkey : hasCfgKey s.rawCfg = true := by
+    cases hk : hasCfgKey s.rawCfg with
+    | true => rfl
+    | false =>
+      exfalso
+      have h0 := root_nokey hi.shape hk
+      have h2 := hi.doc
+      rw [hj, h0] at h2
+      simp [cfgOf, lookup, encodeOf] at h2
+      have := ha.unambiguous
+      rw [← h2] at this
+      simp [taggedJ] at this
   -- the tree
   have hroot : s.rawCfg = .obj [(cfgKey, j)] := by
     have h1 := cfgOf_root_eq hi.shape hkey
